@@ -435,6 +435,14 @@ class Program:
                     if fd["id"] in self.renamed and fd.get("name"):
                         fd["name"] = short(self.renamed[fd["id"]]) if False else self.renamed[fd["id"]].rsplit("::", 1)[-1]
             loaded = [dict(d, fns=_rename_strings(d["fns"], self.renamed), impls=_rename_strings(d["impls"], self.renamed)) for d in loaded]
+        self.renamed_fields = detect_field_renames([a for d in loaded for a in d["adts"]]) if apply_renames else {}
+        if self.renamed_fields:
+            for d in loaded:
+                d["fns"] = _rename_fields(d["fns"], self.renamed_fields)
+                for a in d["adts"]:
+                    for v in a["variants"]:
+                        for fd in v["fields"]:
+                            fd["name"] = self.renamed_fields.get((a["id"], fd["name"]), fd["name"])
         for d in loaded:
             crate = d["crate"]
             self.crates[crate] = self.crates.get(crate, 0) + d["nfn"]
@@ -821,6 +829,47 @@ def detect_renames(fn_dicts):
         if len(c) == 1:
             pairs.setdefault(c[0], []).append(a)
     return {news[0]: v for v, news in pairs.items() if len(news) == 1}
+
+
+def detect_field_renames(adt_dicts):
+    """{(adt id, new field name): reviewed field name}: in an ADT whose variants kept their number of fields, a field whose
+    reviewed name vanished while a field of the same type sits at the same position under a new name"""
+    if not os.path.exists(FINGERPRINTS):
+        return {}
+    with open(FINGERPRINTS) as fh:
+        old = json.load(fh).get("adts", {})
+    out = {}
+    for a in adt_dicts:
+        o = old.get(a["id"])
+        if not o or len(o) != len(a["variants"]):
+            continue
+        for (vname, ofields), v in zip(o, a["variants"]):
+            if vname != v["name"] or len(ofields) != len(v["fields"]):
+                continue
+            onames = {f[0] for f in ofields}
+            nnames = {f["name"] for f in v["fields"]}
+            for (on, oty), nf in zip(ofields, v["fields"]):
+                if on != nf["name"] and oty == nf["ty"] and on not in nnames and nf["name"] not in onames:
+                    out[(a["id"], nf["name"])] = on
+    return out
+
+
+def _rename_fields(x, table):
+    """rewrite field projections `.new|Owner`, aggregate field lists and ADT tables to the reviewed field names"""
+    if isinstance(x, str):
+        if x.startswith(".") and "|" in x:
+            n, owner = x[1:].split("|", 1)
+            r = table.get((owner, n))
+            return ".%s|%s" % (r, owner) if r else x
+        return x
+    if isinstance(x, list):
+        return [_rename_fields(y, table) for y in x]
+    if isinstance(x, dict):
+        d = {k: _rename_fields(v, table) for k, v in x.items()}
+        if "adt" in d and isinstance(d.get("fields"), list):
+            d["fields"] = [table.get((d["adt"], n), n) if isinstance(n, str) else n for n in d["fields"]]
+        return d
+    return x
 
 
 def _rename_strings(x, table):
